@@ -7,4 +7,5 @@ Extraction "Extract/m_redact.ml"
   Redact.redact_prompts Redact.strip_prompts Redact.segments Redact.cont_ok Redact.touched
   GenNoteWriters.note_writers
   Taint.effective_mode Taint.cannot_refetch Taint.filter_log Taint.write Taint.run Taint.inv_cleanb
-  Taint.safe_writer Taint.source_is_notes Taint.known_unsafe Taint.inventory_ok Taint.unsafe_writers.
+  Taint.safe_writer Taint.source_is_notes Taint.w_filtered Taint.w_redacts_in_notes Taint.inventory_ok
+  Taint.inventory_notes_ok Taint.unsafe_writers.
